@@ -1909,21 +1909,34 @@ std::string Generator::GeneratorImpl::generateEquationCode(const AnalyserEquatio
             remainingEquations.erase(std::find(remainingEquations.begin(), remainingEquations.end(), nlaSibling));
         }
 
-        // Generate any dependency that this equation may have.
+        // Generate any dependency that this equation may have, as well as any
+        // dependency that its NLA siblings, if any, may have.
+        // Note: the equations of an NLA system are solved together, so what
+        //       any one of them needs must be computed before the system is
+        //       solved.
 
         if (!isSomeConstant(equation, includeComputedConstants)) {
-            for (const auto &dependency : equation->dependencies()) {
-                // Note: to depend on an ODE normally means to use its state,
-                //       which is readily available, unless the equation uses
-                //       its rate, in which case the ODE must be computed first.
+            std::vector<AnalyserEquationPtr> equations = {equation};
 
-                if (((dependency->type() != AnalyserEquation::Type::ODE)
-                     || usesRateOf(equation->ast(), dependency->variable(0)))
-                    && !isSomeConstant(dependency, includeComputedConstants)
-                    && (equationsForDependencies.empty()
-                        || isToBeComputedAgain(dependency)
-                        || (std::find(equationsForDependencies.begin(), equationsForDependencies.end(), dependency) != equationsForDependencies.end()))) {
-                    res += generateEquationCode(dependency, remainingEquations, equationsForDependencies, includeComputedConstants);
+            for (const auto &nlaSibling : equation->nlaSiblings()) {
+                equations.push_back(nlaSibling);
+            }
+
+            for (const auto &dependentEquation : equations) {
+                for (const auto &dependency : dependentEquation->dependencies()) {
+                    // Note: to depend on an ODE normally means to use its
+                    //       state, which is readily available, unless the
+                    //       equation uses its rate, in which case the ODE must
+                    //       be computed first.
+
+                    if (((dependency->type() != AnalyserEquation::Type::ODE)
+                         || usesRateOf(dependentEquation->ast(), dependency->variable(0)))
+                        && !isSomeConstant(dependency, includeComputedConstants)
+                        && (equationsForDependencies.empty()
+                            || isToBeComputedAgain(dependency)
+                            || (std::find(equationsForDependencies.begin(), equationsForDependencies.end(), dependency) != equationsForDependencies.end()))) {
+                        res += generateEquationCode(dependency, remainingEquations, equationsForDependencies, includeComputedConstants);
+                    }
                 }
             }
         }
